@@ -285,12 +285,15 @@ class Program:
                 from . import unextract
                 self.unextracted = unextract.unextract({m: t[3] for m, t in parsed.items()}, ref_ids)
         self.reextracted = []
+        self.unhoisted = []
         if os.environ.get("SA_NO_UNRENAME") != "1":
             ref_trees = unrename._load_reference(PKG)
             if ref_trees is not None:
                 from . import reextract
                 cur = {m: t[3] for m, t in parsed.items()}
                 self.reextracted = reextract.unmove(cur, ref_trees) + reextract.reextract(cur, ref_trees)
+                from . import unhoist
+                self.unhoisted = unhoist.unhoist(cur, ref_trees)
         unrename.lower_idioms({m: t[3] for m, t in parsed.items()})
         for mod, (path, rel, src, tree) in parsed.items():
             self.modules[mod] = Module(mod, path, rel, src, tree)
